@@ -20,7 +20,3 @@ package sm3
 //@   requires len(z) < 2305843009213693000 && 0 <= keyLen && keyLen <= 4294967000
 //@   ensures len(result) == keyLen
 //@   modifies nothing
-
-//@ func New trusted
-//@   ensures result != nil
-//@   modifies nothing
